@@ -33,6 +33,25 @@ var Keys = func() [][]byte {
 	return [][]byte{mk(""), k1, mk("0001"), mk("001"), mk("01"), mk("1")}
 }()
 
+// moreKeys (indices 6..): keys "02..", "03..", "0f.." - together with key 4 ("01..") and the subtree of keys 0..3
+// they hang under ONE branch below the root's child 0: a non-root branch with up to five children.
+var moreKeys = func() [][]byte {
+	var out [][]byte
+	for _, b := range []byte{0x02, 0x03, 0x0f} {
+		k := make([]byte, 32)
+		k[0] = b
+		out = append(out, k)
+	}
+	return out
+}()
+
+func keyAt(i int) []byte {
+	if i < len(Keys) {
+		return Keys[i]
+	}
+	return moreKeys[i-len(Keys)]
+}
+
 func hexv(c byte) byte {
 	if c >= 'a' {
 		return c - 'a' + 10
@@ -211,9 +230,9 @@ func (w *World) Apply(o Op) (fail string) {
 		var err error
 		if o.K == 'u' {
 			v := w.Shared.value(o.Val, o.Key)
-			err = w.T.Update(Keys[o.Key], []byte(v), Weight(v))
+			err = w.T.Update(keyAt(o.Key), []byte(v), Weight(v))
 		} else {
-			err = w.T.Update(Keys[o.Key], nil, 0)
+			err = w.T.Update(keyAt(o.Key), nil, 0)
 		}
 		hit := w.S.GetFaultHit
 		w.S.ArmGetFault(-1)
@@ -230,18 +249,18 @@ func (w *World) Apply(o Op) (fail string) {
 		}
 		if !hit || err == nil {
 			// not affected by the fault (or it was absorbed): judge as the plain operation would be
-			_, live := w.M.M[string(Keys[o.Key])]
+			_, live := w.M.M[string(keyAt(o.Key))]
 			switch {
 			case o.K == 'u' && err != nil:
 				return fmt.Sprintf("update returned %v", err)
 			case o.K == 'u':
 				v := w.Shared.value(o.Val, o.Key)
-				w.M.M[string(Keys[o.Key])] = model.WEntry{Key: Keys[o.Key], Value: []byte(v), Weight: Weight(v)}
+				w.M.M[string(keyAt(o.Key))] = model.WEntry{Key: keyAt(o.Key), Value: []byte(v), Weight: Weight(v)}
 				w.Pending = true
 			case live && err != nil:
 				return fmt.Sprintf("delete of live key returned %v", err)
 			case live:
-				delete(w.M.M, string(Keys[o.Key]))
+				delete(w.M.M, string(keyAt(o.Key)))
 				w.Pending = true
 			case !errors.Is(err, wmpt.ErrNotFound):
 				return fmt.Sprintf("delete of absent key returned %v, want ErrNotFound", err)
@@ -253,13 +272,13 @@ func (w *World) Apply(o Op) (fail string) {
 	case 'U':
 		v := w.Shared.value(o.Val, o.Key)
 		if w.Alt {
-			if err := w.T.Put(Keys[o.Key], []byte(v), Weight(v)); err != nil {
+			if err := w.T.Put(keyAt(o.Key), []byte(v), Weight(v)); err != nil {
 				return fmt.Sprintf("Put returned %v", err)
 			}
-		} else if err := w.T.Update(Keys[o.Key], []byte(v), Weight(v)); err != nil {
+		} else if err := w.T.Update(keyAt(o.Key), []byte(v), Weight(v)); err != nil {
 			return fmt.Sprintf("update returned %v", err)
 		}
-		w.M.M[string(Keys[o.Key])] = model.WEntry{Key: Keys[o.Key], Value: []byte(v), Weight: Weight(v)}
+		w.M.M[string(keyAt(o.Key))] = model.WEntry{Key: keyAt(o.Key), Value: []byte(v), Weight: Weight(v)}
 		w.Pending = true
 		n := 0
 		for _, e := range w.M.M {
@@ -277,18 +296,18 @@ func (w *World) Apply(o Op) (fail string) {
 		var err error
 		if w.Alt {
 			var freed uint64
-			freed, err = w.T.Delete(Keys[o.Key])
-			if e, ok := w.M.M[string(Keys[o.Key])]; ok && err == nil && freed != e.Weight {
+			freed, err = w.T.Delete(keyAt(o.Key))
+			if e, ok := w.M.M[string(keyAt(o.Key))]; ok && err == nil && freed != e.Weight {
 				return fmt.Sprintf("Delete reports %d released, the key's weight was %d", freed, e.Weight)
 			}
 		} else {
-			err = w.T.Update(Keys[o.Key], nil, 0)
+			err = w.T.Update(keyAt(o.Key), nil, 0)
 		}
-		if _, ok := w.M.M[string(Keys[o.Key])]; ok {
+		if _, ok := w.M.M[string(keyAt(o.Key))]; ok {
 			if err != nil {
 				return fmt.Sprintf("delete of live key returned %v", err)
 			}
-			delete(w.M.M, string(Keys[o.Key]))
+			delete(w.M.M, string(keyAt(o.Key)))
 			w.Pending = true
 		} else if !errors.Is(err, wmpt.ErrNotFound) {
 			return fmt.Sprintf("delete of absent key returned %v, want ErrNotFound", err)
@@ -353,17 +372,17 @@ func (w *World) Apply(o Op) (fail string) {
 		w.SnapM = w.M.Clone()
 	case 'V':
 		v := w.Shared.value(o.Val, o.Key)
-		if err := w.Snap.Update(Keys[o.Key], []byte(v), Weight(v)); err != nil {
+		if err := w.Snap.Update(keyAt(o.Key), []byte(v), Weight(v)); err != nil {
 			return fmt.Sprintf("update through the snapshot returned %v", err)
 		}
-		w.SnapM.M[string(Keys[o.Key])] = model.WEntry{Key: Keys[o.Key], Value: []byte(v), Weight: Weight(v)}
+		w.SnapM.M[string(keyAt(o.Key))] = model.WEntry{Key: keyAt(o.Key), Value: []byte(v), Weight: Weight(v)}
 	case 'W':
-		err := w.Snap.Update(Keys[o.Key], nil, 0)
-		if _, ok := w.SnapM.M[string(Keys[o.Key])]; ok {
+		err := w.Snap.Update(keyAt(o.Key), nil, 0)
+		if _, ok := w.SnapM.M[string(keyAt(o.Key))]; ok {
 			if err != nil {
 				return fmt.Sprintf("delete of a live key through the snapshot returned %v", err)
 			}
-			delete(w.SnapM.M, string(Keys[o.Key]))
+			delete(w.SnapM.M, string(keyAt(o.Key)))
 		} else if !errors.Is(err, wmpt.ErrNotFound) {
 			return fmt.Sprintf("delete of an absent key through the snapshot returned %v, want ErrNotFound", err)
 		}
